@@ -4,6 +4,7 @@ CONSTANTS
   Calls <- I2
   FixIdle = FALSE
   FixStop = TRUE
+  FixOrder = TRUE
   FixWake = TRUE
   CallTimeouts = TRUE
 INVARIANTS NoDeadLetter NoStuckPoll NothingLost
